@@ -19,16 +19,16 @@ From Coq Require Import List NArith Bool.
 Import ListNotations.
 Local Open Scope N_scope.
 
-Record app := { a_name : N; a_mem : list (N * N); a_mix : list N }.
-Definition module := list app.        (* mod.Apps: at most one app per name *)
+Record sapp := { a_name : N; a_mem : list (N * N); a_mix : list N }.
+Definition module := list sapp.        (* mod.Apps: at most one app per name *)
 
-Fixpoint lookup_app (m:module) (n:N) : option app :=
+Fixpoint lookup_app (m:module) (n:N) : option sapp :=
   match m with
   | [] => None
   | a :: m' => if N.eqb (a_name a) n then Some a else lookup_app m' n
   end.
 
-Fixpoint update_app (m:module) (a':app) : module :=
+Fixpoint update_app (m:module) (a':sapp) : module :=
   match m with
   | [] => []
   | a :: m' => if N.eqb (a_name a) (a_name a') then a' :: m' else a :: update_app m' a'
@@ -44,7 +44,7 @@ Fixpoint add_missing (dst src:list (N * N)) : list (N * N) :=
   | (k, v) :: src' => add_missing (if has_mem k dst then dst else dst ++ [(k, v)]) src'
   end.
 
-Definition mix_one (m:module) (a:app) (src:N) : app :=
+Definition mix_one (m:module) (a:sapp) (src:N) : sapp :=
   match lookup_app m src with
   | None => a
   | Some s => {| a_name := a_name a; a_mem := add_missing (a_mem a) (a_mem s); a_mix := a_mix a |}
